@@ -3,7 +3,8 @@ import importlib
 import sys
 
 MODS = ['vf.refproto.codec', 'vf.refproto.framing', 'vf.refproto.cfb8',
-        'vf.refproto.javahash', 'vf.refproto.position']
+        'vf.refproto.javahash', 'vf.refproto.position',
+        'vf.refproto.releases']
 
 
 def main():
